@@ -1001,6 +1001,9 @@ def fam_mixed(tier, seed):
         base = rng.choice([8, 16, 32, 64, 128] * 3 + all_arb_widths())
         cases.append(random_register("mr_%04d" % n, base, rng, overlap=rng.random() < 0.2))
         n += 1
+    # free combinations of kind x shape x access x placement x names / docs / defaults (vf/wild.py)
+    from . import wild
+    cases += wild.wild_cases(tier, seed)
     return cases
 
 
